@@ -134,6 +134,10 @@ func runSeq(p *core.Program, r *core.Report, queue bool) {
 	}
 	stateInventory(c, pkg, sl, []string{"items", "mu"}, all1)
 	stateInventory(c, pkg, ln, []string{"list", "mu", "n"}, all2)
+	// the linked variants keep their elements in a list.DList: its state is part of theirs
+	dlFns := p.FuncsInFiles("list/dlist.go")
+	stateInventory(c, "list", "DList", []string{"DoubleNode"}, dlFns)
+	stateInventory(c, "list", "DoubleNode", []string{"Value", "next", "prev"}, dlFns)
 
 	// =================== slice-backed
 	fAdd, fRem, fPeek, fSearch, fSize := c.fn(S+add), c.fn(S+rem), c.fn(S+"Peek"), c.fn(S+"Search"), c.fn(S+"Size")
